@@ -197,6 +197,47 @@ def step(active: bool, peer_gone: bool, ack: bool, quiet: bool, cnt: int, wt: in
     return ok and not a.lock.locked()
 
 
+def watchdog_cadence(cnt: int, wt: int, d: int) -> bool:
+    """
+    pre: 0 <= cnt <= 10**6 and 1 <= wt <= 10**6 and 0 <= d <= 10**6
+    post: _
+    """
+    # idle Open connection over two ticks: a watchdog request after the configured idle time, and the NEXT one only after
+    # another full idle period (d further idle selector passes in between; each pass adds one to the idle counter)
+    with untraced():
+        node = Node(P["role"])
+        node.force_state(OPEN)
+    a, t = node.assoc, node.transport
+    a.state_is_active = True
+    t.events = []
+    t.tracking_events_count = cnt
+    a.watchdog_timeout = wt
+
+    def dwrs(mark):
+        data = b"".join(node.sock.sent)[mark:] + (node.handed() or b"")
+        return [h for h, _ in ref_decode_msgs(bytes(data))] if data else []
+    try:
+        node.tick()
+        first = dwrs(0)
+        c1 = t.tracking_events_count             # whatever the implementation left after the first tick
+        node.flush()                             # the transport thread writes the DWR: a few more selector passes
+        passes = t.tracking_events_count - c1
+        mark = len(b"".join(node.sock.sent))
+        t.tracking_events_count = t.tracking_events_count + d      # plus d further idle passes
+        t.events = []
+        node.tick()
+        second = dwrs(mark)
+    except LIB as e:
+        reached()
+        return False
+    reached()
+    fired1 = cnt >= wt
+    fired2 = (passes + d >= wt) if fired1 else (cnt + passes + d >= wt)
+    if REPLAY: note(cnt=cnt, wt=wt, d=d, first=len(first), second=len(second), expected=[fired1, fired2])
+    ok = len(first) == (1 if fired1 else 0) and len(second) == (1 if fired2 else 0)
+    return ok and all(h["command"] == 280 and h["flags"] >= 128 for h in first + second) and node.state() in ("I-Open", "R-Open")
+
+
 WALK = ["cer_ok", "cea_ok", "cea_wrong_host", "cer_wrong_realm", "dwr_ok", "dpr_ok", "dpa", "app_req"]
 
 
@@ -254,6 +295,9 @@ def queries(tier, seed):
             qs.append(Q(f"step/{role}/{st.replace('/', '_')}", "step", {"role": role, "state": st}, cto=t, pto=t,
                         what=f"{role} in {st}: one tick from every pre-state (stop / disconnect / ack flags, idle counters, queued outbound, "
                              f"inbound head over {len(KINDS)} kinds with symbolic identifiers) vs the reference transition function"))
+    for role in ("CLIENT", "SERVER"):
+        qs.append(Q(f"watchdog_cadence/{role}", "watchdog_cadence", {"role": role}, cto=t, pto=t,
+                    what=f"{role}: idle Open connection over two ticks, all idle counters / timeouts / gaps: one DWR per full idle period"))
     for role in ("CLIENT", "SERVER"):
         for n in ((3,) if tier == "quick" else (3, 4, 5)):
             qs.append(Q(f"walk/{role}/n{n}", "walk", {"role": role, "n": n}, cto=t, pto=t, what=f"{role}: every sequence of {n} events from Closed (reachability + safety)"))
